@@ -1,34 +1,33 @@
-"""Per-property configuration for ./check: theorem modules, trusted base, rules, known-finding matchers."""
+"""Per-property configuration for ./check. One file per property in lib/propdefs/Cxx.py defining CFG with:
+  modules        Lean modules holding the property's theorems (everything else is helper material)
+  rule           how cases are generated and what counts as distinct / non-trivial
+  exhaustive     True when part of the run enumerates a finite scope completely
+  violation_text what a spec=bad case means
+  trusted_base, assumptions, design_ref, level_text, level_note, technique
+  known_matcher  optional function(diff) -> key of a `finding:` line in known_findings.txt, or None
+  timeout        optional {"quick": s, "thorough": s} for the harness run
+"""
+import importlib.util, os, glob
 
 PROPS = {}
-
-PROPS["C05"] = {
-    "modules": ["HumphreyModel.Props.C05"],
-    "rule": "pairs (pattern, text) fed to humphrey::krauss::wildcard_match and to the Lean model; "
-            "exhaustive block: all patterns <=6 over {*,a,b} x all texts <=8 over {a,b}, the same one size "
-            "smaller over {*,e-acute,emoji}, patterns/texts over {*,a} with * as text character; random pairs "
-            "built from repeated units (self-overlapping literals). Non-trivial = pattern has >=1 '*' and >=1 "
-            "literal; distinct = distinct case line (hash set).",
-    "exhaustive": True,
-    "violation_text": "wildcard_match(pattern, text) differs from the glob relation (proved equal to the model)",
-    "trusted_base": ["Spec/Glob.lean: the 4-rule relation Glob and `subst` (proved equivalent to each other)",
-                     "Rust str::chars / Lean String.fromUTF8? agree on UTF-8 decoding (driver only)"],
-    "assumptions": ["pattern and text are valid UTF-8 (Rust &str)"],
-    "design_ref": "6.5",
-    "level_text": "wildcard_match_iff_glob: for every pattern and text (any length, any Unicode scalar) the model of "
-                  "krauss.rs answers true exactly when the text is the pattern with each * replaced by some string; "
-                  "the model is tied to the code by an exhaustive small-scope plus biased-random differential run, in "
-                  "which any disagreement is a failing input because the model is proved equal to the spec.",
-    "level_note": "Trusted: Lean kernel, the 4-rule Glob relation (proved equivalent to substitution), the harness. "
-                  "The theorem is about the model; the loop of krauss.rs itself is covered by the correspondence run.",
-}
+_here = os.path.join(os.path.dirname(os.path.abspath(__file__)), "propdefs")
+for _p in sorted(glob.glob(os.path.join(_here, "C*.py"))):
+    _spec = importlib.util.spec_from_file_location(os.path.basename(_p)[:-3], _p)
+    _m = importlib.util.module_from_spec(_spec)
+    _spec.loader.exec_module(_m)
+    PROPS[os.path.basename(_p)[:-3]] = _m.CFG
 
 # Properties not claimed (yet), with the reason.
 NOT_APPLICABLE = {}
 for _i in range(1, 21):
     _id = "C%02d" % _i
     if _id not in PROPS:
-        NOT_APPLICABLE[_id] = "not built yet in this round: model, theorems and correspondence check are planned in DESIGN.md section 6 but do not exist, so nothing is claimed"
+        NOT_APPLICABLE[_id] = ("not built yet: model, theorems and correspondence check are planned in DESIGN.md "
+                               "section 6 but do not exist, so nothing is claimed")
 
 # /repo commits that add cfg(humphrey_verif)-guarded hooks.
-HOOK_COMMITS = []
+HOOK_COMMITS = [
+    "2420990 verif hook: humphrey_ws::verif re-exports frames, SHA-1 and Base64",
+    "3d998c4 verif hook: scripted Stream::Mock variant and verif_client_handler",
+    "bcab896 verif hook: clock override for the file cache and sessions, cache constructor/state access, verify_connection export",
+]
